@@ -5,6 +5,7 @@ CONSTANTS
   MaxIters = 4
   Modes = {"new", "all"}
   Variant = "ok"
+  AllowLoss = TRUE
   Emit = FALSE
 INVARIANT TypeOK
 INVARIANT TableComplete
